@@ -164,6 +164,14 @@ def case_list(nbase, step):
         for size in (131190, 131198, 131199, 131200, 131201, 131202, 131210, 262395, 262400, 262410, 300000):
             for style in ('lf', 'crlf'):
                 cases.append(('big', kind, style, size))
+    # tokens of every kind deep inside a large document, where the scan buffer has filled up and is compacted
+    # (about every 128 Ki characters), and a document that ends inside such a compaction window
+    fine = 128 if step == 1 and nbase <= 3 else 256
+    for style in ('lf', 'crlf', 'cr'):
+        for k in sorted(set(list(range(fine)) + list(range(0, 4096, 97)))):
+            cases.append(('deep', 'units', style, k))
+        for k in range(0, 4096, 64 if nbase <= 3 else 8):
+            cases.append(('deep', 'long-items', style, k))
     for start in ('\r', '\r\n', '\ufeff\r', '\ufeff\r\n', '\n', '\r\r\n', '\ufeff\n', ' \r\n'):
         for style in ('lf', 'crlf', 'cr'):
             cases.append(('start', start, style, 0))
@@ -202,6 +210,59 @@ def big_document(kind, size):
     # many CR LF pairs inside a long text field when restyled
     lines = ['ab' for _ in range(size // 3)]
     return head + '_big\n;' + '\n'.join(lines) + '\n;' + tail
+
+
+DEEP_FILL = 131072
+
+
+def deep_document(kind, pad):
+    """-> (text, number of items).  'units': short items of every token kind packed around the offsets where the scan
+    buffer is compacted for the first and the second time, comment filler elsewhere; 'long-items': 417 items of about
+    620 bytes, then 40 short ones, about 260 kB in all, so that the last short read arrives while the buffer is nearly
+    full.  `pad` characters of comment after the first two lines move everything that follows."""
+    out = ['#\\#CIF_2.0\ndata_deep\n']
+    n = len(out[0]) + 2                     # offsets are planned for pad = 0; the padding then slides the tokens across
+    left = pad
+    while True:
+        m = min(left, 1500)
+        out.append('#' + 'p' * m + '\n')
+        left -= m
+        if left <= 0:
+            break
+    items = 0
+    if kind == 'units':
+        k = 0
+        for target in (DEEP_FILL, 2 * DEEP_FILL):
+            while n < target - 3000:
+                m = min(1000, target - 3000 - n)
+                line = '#' + 'f' * max(m - 2, 0) + '\n'
+                out.append(line)
+                n += len(line)
+            while n < target + 6000:
+                u = ("_a%04d\n;text %04d\nsecond line\n;\n_b%04d \"\"\"tq %04d\nmore\"\"\" _c%04d 'q %04d' _d%04d [%04d {'k':v%04d}] _e%04d %04d\n"
+                     % (k, k, k, k, k, k, k, k, k, k, k))
+                out.append(u)
+                n += len(u)
+                items += 5
+                k += 1
+        out.append('_last_item done\n')
+        items += 1
+    else:
+        for j in range(417):
+            out.append("_L%03d '%s'\n" % (j, ('%03d ' % j) + 'v' * 606))
+            items += 1
+        for j in range(40):
+            out.append('_s%02d %d\n' % (j, j))
+            items += 1
+    return ''.join(out), items
+
+
+def count_items(d):
+    """scalar items of the single block of a dump"""
+    try:
+        return sum(len(lp[1]) for lp in d[1][0][2])
+    except Exception:
+        return -1
 
 
 def worker(ctx):
@@ -265,6 +326,20 @@ def worker(ctx):
             if d0 is None or 'still here' not in repr(d0):
                 ctx.violation('parse:big-%s:reference' % tk, 'the item after the big token is missing from the reference parse', info)
             ctx.add('big', '%s:%d' % (tk, size))
+        elif kind == 'deep':
+            _, dk, style, k = c
+            key = ('deep', dk)
+            if key not in refs:
+                text0, nitems = deep_document(dk, 0)
+                refs[key] = run_parse(L, text0.encode('utf-8'))
+                rc0, d0, e0, _ = refs[key]
+                if rc0 != CIF_OK or e0 or d0 is None or count_items(d0) != nitems:
+                    ctx.violation('parse:deep-%s:reference' % dk, 'the unpadded reference document (%d items, %d bytes) parses to %d items, rc %d, errors %r' % (nitems, len(text0), count_items(d0) if d0 else -1, rc0, e0[:3]), info)
+            text, nitems = deep_document(dk, k)
+            got = run_parse(L, restyle(text, style, rng).encode('utf-8'))
+            ok = compare(ctx, refs[key], got, 0, 'deep-%s-%s' % (dk, style), info)
+            ctx.add('deep', '%s:%s' % (dk, style))
+            ctx.count('deep_documents')
         elif kind == 'start':
             _, start, style, _ = c
             body = '_a 1\n_b\n;t1\nt2\n;\n_a 2\n'
@@ -330,7 +405,8 @@ def run(env):
             lf_offsets_mod_4096=len([o for o in offs if o.startswith('lf:')]),
             crlf_offsets_mod_4096=len([o for o in offs if o.startswith('crlf:')]),
             utf16_offsets=len([o for o in offs if o.startswith('utf16:')]),
-            big_token_cases=sorted(res.sets.get('big', ())), crashes=res.crashes),
+            big_token_cases=sorted(res.sets.get('big', ())),
+            documents_with_tokens_at_scan_buffer_compaction_points=res.count('deep_documents'), crashes=res.crashes),
         violations=res.violations, inconclusive=inconclusive,
         assumptions=['errors reported on line 1 (encoding) are not shifted by padding, all others are'])
 
